@@ -150,6 +150,9 @@ impl World {
 			return false;
 		}
 		self.out.bump("fault:revoked_commitment_confirmed");
+		if !self.in_settle && self.trace.last() != Some(&Action::Settle) {
+			self.out.bump("probe:cheat_in_the_middle_of_traffic");
+		}
 		if age >= 3 {
 			self.out.bump("probe:revoked_state_at_least_4_old");
 		}
